@@ -33,6 +33,7 @@ GATES = ["settings_compared", "validate0_twin_checked", "parsed_false_checked", 
 
 
 BYSTANDERS = [0]
+POSITIONAL = [0, 0]  # readers built by keyword only / with leading positional options
 
 
 def make(rng, with_damage):
@@ -90,8 +91,14 @@ def drive(data, validate, parsed, labelmsm, mode, seekable=False):
     # one run in three hands out bytearrays from read()/readline() (decided by the data, so all settings of one
     # case see the same kind of stream)
     ds = cls(data, budget=6 * len(data) + 16, rtype=bytearray if len(data) % 3 == 0 else None)
-    rdr = RTCMReader(ds, validate=validate, parsed=parsed, labelmsm=labelmsm, quitonerror=mode,
-                     errorhandler=(lambda e: None))
+    from vf import posargs
+
+    # some readers get their leading options by POSITION, in the documented order (decided by the data, so all
+    # settings of one case are built the same way)
+    npos = posargs.npos_for(len(data) // 3)
+    POSITIONAL[min(npos, 1)] += 1
+    rdr = posargs.make_reader(RTCMReader, ds, npos, validate=validate, parsed=parsed, labelmsm=labelmsm,
+                              quitonerror=mode, errorhandler=(lambda e: None))
     if len(data) % 2 == 0:
         # a second reader with the OPPOSITE options is created afterwards and stays alive (never read): options are
         # per reader
